@@ -1,4 +1,5 @@
-import Dia.ServerCut
+import Dia.Examples
+import Dia.ServerBoth
 import Dia.ResetSim
 import Dia.Hostile
 /-! # C09 - Server survives connection loss at any byte offset. Property theorems only.
@@ -55,5 +56,54 @@ theorem C09_write_prefix (bs : Bytes) (w : List WEv) :
 /-- no script of read outcomes and no script of write outcomes makes the loop reach a panic site of the decoder -/
 theorem C09_no_panic (cfg : Cfg) (dict : Lookup) (evs : List REv) : (Codec.decode cfg dict evs).out ≠ .panic :=
   (Codec.decode_hostile cfg dict evs).1
+
+/-- **C09, both sides at once.** The peer's stream carries complete acceptable requests and then ends at an arbitrary offset
+`q` inside the next one, *while* the write side may stall, accept partially and fail at any offset of any answer: the handler
+has been called for a prefix `reqs.take k` of the requests that arrived completely - never for the truncated one -, the answers
+to all but the last of them are completely on the stream, and nothing beyond (a prefix of) the answer to the last one was
+written. -/
+theorem C09_cut_both (cfg : Cfg) (dict : Lookup) (frames : List Bytes) (reqs answers : List Msg)
+    (f : Bytes) (m : Msg) (q : Nat) (evs : List REv) (w : List WEv)
+    (hl1 : frames.length = reqs.length) (hl2 : answers.length = reqs.length)
+    (hacc : ∀ i (h1 : i < frames.length) (h2 : i < reqs.length), Accepts cfg dict frames[i] reqs[i])
+    (henc : ∀ a ∈ answers, a.enc.err = none) (hf : Accepts cfg dict f m) (hq : q < f.length)
+    (hne : noEmpty evs) (hflat : flat evs = frames.flatten ++ f.take q) :
+    ∃ k, k ≤ reqs.length ∧ (serve cfg dict (answers.map .ok) evs w).calls = reqs.take k ∧
+      ((answers.take (k - 1)).map (fun a => a.enc.bytes)).flatten <+: (serve cfg dict (answers.map .ok) evs w).written ∧
+      (serve cfg dict (answers.map .ok) evs w).written <+: ((answers.take k).map (fun a => a.enc.bytes)).flatten :=
+  serve_write_any_rest cfg dict frames reqs answers (f.take q) evs w hl1 hl2 hacc henc hne hflat
+    (fun evs2 hne2 hfl2 m' hm' => by
+      have := Codec.decode_cut cfg dict evs2 f m q hne2 hf hq hfl2
+      rw [this] at hm'; cases hm')
+
+/-- the same with anything behind the complete requests from which the stream reader extracts no message (a hostile
+announcement, a frame the decoder refuses): the loop never calls the handler for it, whatever the write side does -/
+theorem C09_refused_both (cfg : Cfg) (dict : Lookup) (frames : List Bytes) (reqs answers : List Msg)
+    (rest : Bytes) (evs : List REv) (w : List WEv)
+    (hl1 : frames.length = reqs.length) (hl2 : answers.length = reqs.length)
+    (hacc : ∀ i (h1 : i < frames.length) (h2 : i < reqs.length), Accepts cfg dict frames[i] reqs[i])
+    (henc : ∀ a ∈ answers, a.enc.err = none)
+    (hne : noEmpty evs) (hflat : flat evs = frames.flatten ++ rest)
+    (hrest : ∀ evs2, noEmpty evs2 → flat evs2 = rest → ∀ m, (Codec.decode cfg dict evs2).out ≠ .ok m) :
+    ∃ k, k ≤ reqs.length ∧ (serve cfg dict (answers.map .ok) evs w).calls = reqs.take k ∧
+      ((answers.take (k - 1)).map (fun a => a.enc.bytes)).flatten <+: (serve cfg dict (answers.map .ok) evs w).written ∧
+      (serve cfg dict (answers.map .ok) evs w).written <+: ((answers.take k).map (fun a => a.enc.bytes)).flatten :=
+  serve_write_any_rest cfg dict frames reqs answers rest evs w hl1 hl2 hacc henc hne hflat hrest
+
+/-- non-vacuity of `C09_cut_both`: one complete request, the next one cut after 7 octets, the write side failing after 3 octets
+of the answer - one handler call, three octets written -/
+example : ∃ k, k ≤ 1 ∧
+    (serve exCfg exDictNone [.ok exFrameMsg] [.data (exFrame ++ exFrame.take 7)] [.accept 3, .fail]).calls = [exFrameMsg].take k ∧
+    ((([exFrameMsg] : List Msg).take (k - 1)).map (fun a => a.enc.bytes)).flatten <+:
+      (serve exCfg exDictNone [.ok exFrameMsg] [.data (exFrame ++ exFrame.take 7)] [.accept 3, .fail]).written ∧
+    (serve exCfg exDictNone [.ok exFrameMsg] [.data (exFrame ++ exFrame.take 7)] [.accept 3, .fail]).written <+:
+      ((([exFrameMsg] : List Msg).take k).map (fun a => a.enc.bytes)).flatten :=
+  C09_cut_both exCfg exDictNone [exFrame] [exFrameMsg] [exFrameMsg] exFrame exFrameMsg 7
+    [.data (exFrame ++ exFrame.take 7)] [.accept 3, .fail] rfl rfl
+    (fun i h1 h2 => by
+      have : i = 0 := by simp at h1; omega
+      subst this; exact exFrame_accepts)
+    (fun a ha => by simp at ha; subst ha; rw [exFrameMsg_enc])
+    exFrame_accepts (by decide) (by simp [noEmpty, exFrame]) (by simp [flat])
 
 end Dia
